@@ -51,6 +51,37 @@ impl SE for String {
     const NAME: &'static str = "String";
 }
 
+/// A zero-sized element whose serde encoding is the unit struct: `Set<Zs, N>` / `Map<Zs, Zs, N>` have
+/// zero-sized PAIRS (pointer walks over them make no progress) and hold at most one entry.
+#[derive(Clone, Debug, PartialEq)]
+pub struct Zs;
+impl Serialize for Zs {
+    fn serialize<S: serde::Serializer>(&self, s: S) -> Result<S::Ok, S::Error> {
+        s.serialize_unit_struct("Zs")
+    }
+}
+impl<'de> Deserialize<'de> for Zs {
+    fn deserialize<D: serde::Deserializer<'de>>(d: D) -> Result<Self, D::Error> {
+        struct Vis;
+        impl<'de> serde::de::Visitor<'de> for Vis {
+            type Value = Zs;
+            fn expecting(&self, f: &mut std::fmt::Formatter) -> std::fmt::Result {
+                f.write_str("unit struct Zs")
+            }
+            fn visit_unit<E: serde::de::Error>(self) -> Result<Zs, E> {
+                Ok(Zs)
+            }
+        }
+        d.deserialize_unit_struct("Zs", Vis)
+    }
+}
+impl SE for Zs {
+    fn mk(_: u32) -> Self {
+        Zs
+    }
+    const NAME: &'static str = "Zs(zero-sized)";
+}
+
 fn v(what: &str, msg: String) {
     let (_, _, op) = ledger::ctx();
     ledger::violation("C20", format!("{}@{}", what, op), msg);
@@ -172,6 +203,9 @@ impl<'a> Sd<'a> {
         // (1) recorder
         self.cx.rep.evaluations += 1;
         self.cx.rep.hit(&format!("map-serialize:{}", if m.is_empty() { "empty" } else if m.len() == N { "full" } else { "partial" }));
+        if std::mem::size_of::<(K, V)>() == 0 && !m.is_empty() {
+            self.cx.rep.hit("zero-sized-pairs:map");
+        }
         let mut log: Vec<Ev> = Vec::new();
         let r = m.serialize(Recorder { log: &mut log });
         if let Err(e) = r {
@@ -304,6 +338,9 @@ impl<'a> Sd<'a> {
         let descr = format!("Set<{},{}> len={} elements(slot order)={:?}", T::NAME, N, s.len(), s.iter().map(val).collect::<Vec<_>>());
         self.cx.rep.evaluations += 1;
         self.cx.rep.hit(&format!("set-serialize:{}", if s.is_empty() { "empty" } else if s.len() == N { "full" } else { "partial" }));
+        if std::mem::size_of::<T>() == 0 && !s.is_empty() {
+            self.cx.rep.hit("zero-sized-pairs:set");
+        }
         let mut log: Vec<Ev> = Vec::new();
         if let Err(e) = s.serialize(Recorder { log: &mut log }) {
             v("serialize-fails", format!("[{}] serialize failed: {}", descr, e));
